@@ -382,6 +382,8 @@ def to_tt(A,N=None,eps=1e-14,rmax=100,is_sparse=False):
     # check if rmax is a list
     if not isinstance(rmax,list):
         rmax = [1] + (d-1)*[rmax] + [1]
+    elif len(rmax) != d+1:
+        raise ValueError('The list of maximum ranks must have one entry per rank (d+1 entries).')
         
     C = A   
     cores = [] 
